@@ -5,6 +5,7 @@ import ExponaxModel.Properties.C02
 import ExponaxModel.Proofs.Conservation
 import ExponaxModel.Proofs.InvariantsVort
 import ExponaxModel.Proofs.InvariantsRot3dLeray
+import ExponaxModel.Proofs.LaminarEquilibriaExamples
 /-
 C09 — conserved quantities and equilibria survive the discretisation exactly.
 Mean: zero mean-mode output of the conservative / Cahn–Hilliard / gradient-norm(zero-fix) terms in every dimension and
@@ -230,5 +231,214 @@ theorem C09_rotational_no_work_projected (c : Cfg ℂ) (hD : c.D = 3) (hq : c.fq
       (Transform.irfftnM c.D c.N ((projected3d c none (leray c #[Transform.rfftnM c.D c.N (w 0),
         Transform.rfftnM c.D c.N (w 1), Transform.rfftnM c.D c.N (w 2)])).getD i #[])).getD j 0 = 0 :=
   Invariants.projected3d_no_work_leray c hD hq hK hN s hs hs0 w hw
+
+
+/-! ### constant equilibria on the model terms and the regenerated wiring (library `Proofs/Equilibria*.lean`): transport terms
+vanish on constant states, reaction terms map constants to constants, so L(0)û + N(û) = 0 at the documented equilibria of
+Fisher–KPP, Allen–Cahn, Swift–Hohenberg and Gray–Scott (regenerated operators and nonlinear functions); with the STORED contour
+coefficients a constant equilibrium is a fixed point of every order exactly when the scalar defect e^z − 1 − z·mean φ₁ vanishes
+at the mean-mode symbol — always for transport equations (L(0) = 0), and up to |λdt|·5·10⁻⁸ otherwise; the naive statement
+"every equilibrium is exactly fixed with stored coefficients" is FALSE (counterexample with M = 1), because the contour mean
+of φ₁ telescopes node by node with the node, not with z. -/
+
+open Exponax.Equilibria Exponax.EquilibriaStored in
+theorem C09_convection_vanishes_on_constants :
+    ∀ (c : Nonlin.Cfg ℂ),
+      0 < c.D →
+        0 < c.N →
+          ∀ (C : ℕ) (scale : ℂ) (single conservative : Bool) (uh : Nonlin.MC ℂ),
+            MeanSpec c uh → ∀ (ch h : ℕ), Nonlin.at2 (Nonlin.convection c C scale single conservative uh) ch h = 0 :=
+  @Exponax.Equilibria.convection_const
+
+open Exponax.Equilibria Exponax.EquilibriaStored in
+theorem C09_gradient_norm_vanishes_on_constants :
+    ∀ (c : Nonlin.Cfg ℂ),
+      0 < c.N →
+        ∀ (C : ℕ) (scale : ℂ) (zeroFix : Bool) (uh : Nonlin.MC ℂ),
+          MeanSpec c uh → ∀ (ch h : ℕ), Nonlin.at2 (Nonlin.gradientNorm c C scale zeroFix uh) ch h = 0 :=
+  @Exponax.Equilibria.gradientNorm_const
+
+open Exponax.Equilibria Exponax.EquilibriaStored in
+theorem C09_reaction_maps_constants_to_constants :
+    ∀ (c : Nonlin.Cfg ℂ),
+      0 < c.D →
+        0 < c.N →
+          Nonlin.mask c 0 = 1 →
+            ∀ (C : ℕ) (react : List ℂ → List ℂ) (u0 : ℕ → ℝ),
+              Nonlin.reaction c C react (constSpec c C fun k ↦ ↑(u0 k)) =
+                constSpec c C fun ch ↦ (react (List.map (fun k ↦ ↑(u0 k)) (List.range C))).getD ch 0 :=
+  @Exponax.Equilibria.reaction_const
+
+open Exponax.Equilibria Exponax.EquilibriaStored in
+theorem C09_fisher_kpp_equilibria :
+    ∀ (c : Nonlin.Cfg ℂ),
+      0 < c.D →
+        0 < c.N →
+          ∀ (a : Gen.StepperWiring.FisherKPPArgs ℂ),
+            Nonlin.mask (StepperWiringEq.withDF c a.dealiasing_fraction) 0 = 1 →
+              ∀ (u0 : ℝ),
+                u0 = 0 ∨ u0 = 1 →
+                  ∀ (h : ℕ),
+                    Gen.Steppers.FisherKPP_linear_operator (kappa c h) a.diffusivity a.reactivity *
+                          Nonlin.at2 (constSpec c 1 fun x ↦ ↑u0) 0 h +
+                        Nonlin.at2 (Gen.StepperWiring.FisherKPP_stepper_nonlinear_fun c a (constSpec c 1 fun x ↦ ↑u0)) 0 h =
+                      0 :=
+  @Exponax.Equilibria.FisherKPP_equilibria
+
+open Exponax.Equilibria Exponax.EquilibriaStored in
+theorem C09_allen_cahn_equilibria :
+    ∀ (c : Nonlin.Cfg ℂ),
+      0 < c.D →
+        0 < c.N →
+          ∀ (a : Gen.StepperWiring.AllenCahnArgs ℂ),
+            Nonlin.mask (StepperWiringEq.withDF c a.dealiasing_fraction) 0 = 1 →
+              ∀ (u0 : ℝ),
+                u0 = 0 ∨ a.first_order_coefficient + a.third_order_coefficient * ↑u0 ^ 2 = 0 →
+                  ∀ (h : ℕ),
+                    Gen.Steppers.AllenCahn_linear_operator (kappa c h) a.diffusivity a.first_order_coefficient *
+                          Nonlin.at2 (constSpec c 1 fun x ↦ ↑u0) 0 h +
+                        Nonlin.at2 (Gen.StepperWiring.AllenCahn_stepper_nonlinear_fun c a (constSpec c 1 fun x ↦ ↑u0)) 0 h =
+                      0 :=
+  @Exponax.Equilibria.AllenCahn_equilibria
+
+open Exponax.Equilibria Exponax.EquilibriaStored in
+theorem C09_swift_hohenberg_equilibria :
+    ∀ (c : Nonlin.Cfg ℂ),
+      0 < c.D →
+        0 < c.N →
+          ∀ (a : Gen.StepperWiring.SwiftHohenbergArgs ℂ),
+            Nonlin.mask (StepperWiringEq.withDF c a.dealiasing_fraction) 0 = 1 →
+              ∀ (u0 : ℝ),
+                (a.reactivity - a.critical_number ^ 2) * ↑u0 + Nonlin.polyEval a.polynomial_coefficients ↑u0 = 0 →
+                  ∀ (h : ℕ),
+                    Gen.Steppers.SwiftHohenberg_linear_operator (kappa c h) a.reactivity a.critical_number *
+                          Nonlin.at2 (constSpec c 1 fun x ↦ ↑u0) 0 h +
+                        Nonlin.at2 (Gen.StepperWiring.SwiftHohenberg_stepper_nonlinear_fun c a (constSpec c 1 fun x ↦ ↑u0))
+                          0 h =
+                      0 :=
+  @Exponax.Equilibria.SwiftHohenberg_equilibria
+
+open Exponax.Equilibria Exponax.EquilibriaStored in
+theorem C09_gray_scott_equilibria :
+    ∀ (c : Nonlin.Cfg ℂ),
+      0 < c.D →
+        0 < c.N →
+          ∀ (g : Gen.StepperWiring.GrayScottArgs ℂ),
+            Nonlin.mask (StepperWiringEq.withDF c g.dealiasing_fraction) 0 = 1 →
+              ∀ (a b : ℝ),
+                g.feed_rate * (1 - ↑a) = ↑a * (↑b * ↑b) →
+                  (g.feed_rate + g.kill_rate) * ↑b = ↑a * (↑b * ↑b) →
+                    ∀ (ch h : ℕ),
+                      ch < 2 →
+                        (Gen.Steppers.GrayScott_linear_operator (kappa c h) g.diffusivity_1 g.diffusivity_2).getD ch 0 *
+                              Nonlin.at2 (constSpec c 2 fun k ↦ ↑([a, b].getD k 0)) ch h +
+                            Nonlin.at2
+                              (Gen.StepperWiring.GrayScott_stepper_nonlinear_fun c g
+                                (constSpec c 2 fun k ↦ ↑([a, b].getD k 0)))
+                              ch h =
+                          0 :=
+  @Exponax.Equilibria.GrayScott_equilibria
+
+open Exponax.Equilibria Exponax.EquilibriaStored in
+theorem C09_constants_fixed_by_transport_steppers_stored :
+    ∀ (c : Nonlin.Cfg ℂ),
+      0 < c.D →
+        0 < c.N →
+          ∀ (F : Nonlin.MC ℂ → Nonlin.MC ℂ) (u0 : ℂ),
+            (∀ (h : ℕ), Nonlin.at2 (F (constSpec c 1 fun x ↦ u0)) 0 h = 0) →
+              ∀ (L : ℕ → ℂ),
+                L 0 = 0 →
+                  ∀ (dt r : ℂ) (M : ℕ),
+                    Gen.Etdrk.E1step (fun h ↦ Gen.Etdrk.exp_term dt (L h)) (fun h ↦ Gen.Etdrk.E1_coef_1 dt (L h) M r)
+                          (Conserve.liftNl c F) (constSpectrum c u0) =
+                        constSpectrum c u0 ∧
+                      Gen.Etdrk.E2step (fun h ↦ Gen.Etdrk.exp_term dt (L h)) (fun h ↦ Gen.Etdrk.E2_coef_1 dt (L h) M r)
+                            (fun h ↦ Gen.Etdrk.E2_coef_2 dt (L h) M r) (Conserve.liftNl c F) (constSpectrum c u0) =
+                          constSpectrum c u0 ∧
+                        Gen.Etdrk.E3step (fun h ↦ Gen.Etdrk.exp_term dt (L h))
+                              (fun h ↦ Gen.Etdrk.E3_half_exp_term dt (L h) M r) (fun h ↦ Gen.Etdrk.E3_coef_1 dt (L h) M r)
+                              (fun h ↦ Gen.Etdrk.E3_coef_2 dt (L h) M r) (fun h ↦ Gen.Etdrk.E3_coef_3 dt (L h) M r)
+                              (fun h ↦ Gen.Etdrk.E3_coef_4 dt (L h) M r) (fun h ↦ Gen.Etdrk.E3_coef_5 dt (L h) M r)
+                              (Conserve.liftNl c F) (constSpectrum c u0) =
+                            constSpectrum c u0 ∧
+                          Gen.Etdrk.E4step (fun h ↦ Gen.Etdrk.exp_term dt (L h))
+                              (fun h ↦ Gen.Etdrk.E4_half_exp_term dt (L h) M r) (fun h ↦ Gen.Etdrk.E4_coef_1 dt (L h) M r)
+                              (fun h ↦ Gen.Etdrk.E4_coef_2 dt (L h) M r) (fun h ↦ Gen.Etdrk.E4_coef_3 dt (L h) M r)
+                              (fun h ↦ Gen.Etdrk.E4_coef_4 dt (L h) M r) (fun h ↦ Gen.Etdrk.E4_coef_5 dt (L h) M r)
+                              (fun h ↦ Gen.Etdrk.E4_coef_6 dt (L h) M r) (Conserve.liftNl c F) (constSpectrum c u0) =
+                            constSpectrum c u0 :=
+  @Exponax.Equilibria.transport_const_fixed_stored
+
+open Exponax.Equilibria Exponax.EquilibriaStored in
+theorem C09_constant_equilibrium_fixed_stored :
+    ∀ (c : Nonlin.Cfg ℂ),
+      0 < c.D →
+        0 < c.N →
+          Nonlin.mask c 0 = 1 →
+            ∀ (coeffs : List ℂ) (L : ℕ → ℂ) (u0 : ℝ),
+              L 0 * ↑u0 + Nonlin.polyEval coeffs ↑u0 = 0 →
+                ∀ (dt r : ℂ) (M : ℕ),
+                  fpDefect dt (L 0) M r = 0 →
+                    fpDefectHalf dt (L 0) M r = 0 →
+                      Gen.Etdrk.E3step (fun h ↦ Gen.Etdrk.exp_term dt (L h))
+                            (fun h ↦ Gen.Etdrk.E3_half_exp_term dt (L h) M r) (fun h ↦ Gen.Etdrk.E3_coef_1 dt (L h) M r)
+                            (fun h ↦ Gen.Etdrk.E3_coef_2 dt (L h) M r) (fun h ↦ Gen.Etdrk.E3_coef_3 dt (L h) M r)
+                            (fun h ↦ Gen.Etdrk.E3_coef_4 dt (L h) M r) (fun h ↦ Gen.Etdrk.E3_coef_5 dt (L h) M r)
+                            (Conserve.liftNl c (Nonlin.polynomial c 1 coeffs)) (constSpectrum c ↑u0) =
+                          constSpectrum c ↑u0 ∧
+                        Gen.Etdrk.E4step (fun h ↦ Gen.Etdrk.exp_term dt (L h))
+                            (fun h ↦ Gen.Etdrk.E4_half_exp_term dt (L h) M r) (fun h ↦ Gen.Etdrk.E4_coef_1 dt (L h) M r)
+                            (fun h ↦ Gen.Etdrk.E4_coef_2 dt (L h) M r) (fun h ↦ Gen.Etdrk.E4_coef_3 dt (L h) M r)
+                            (fun h ↦ Gen.Etdrk.E4_coef_4 dt (L h) M r) (fun h ↦ Gen.Etdrk.E4_coef_5 dt (L h) M r)
+                            (fun h ↦ Gen.Etdrk.E4_coef_6 dt (L h) M r) (Conserve.liftNl c (Nonlin.polynomial c 1 coeffs))
+                            (constSpectrum c ↑u0) =
+                          constSpectrum c ↑u0 :=
+  @Exponax.Equilibria.const_equilibrium_stored
+
+open Exponax.Equilibria Exponax.EquilibriaStored in
+theorem C09_fixed_point_stored_coefficients :
+    ∀ (dt r : ℂ) (M : ℕ) (L u : ℕ → ℂ) (N : (ℕ → ℂ) → ℕ → ℂ),
+      (∀ (h : ℕ), L h * u h + N u h = 0) →
+        (∀ (h : ℕ), u h ≠ 0 → fpDefect dt (L h) M r = 0) →
+          (∀ (h : ℕ), u h ≠ 0 → fpDefectHalf dt (L h) M r = 0) →
+            Gen.Etdrk.E4step (fun h ↦ Gen.Etdrk.exp_term dt (L h)) (fun h ↦ Gen.Etdrk.E4_half_exp_term dt (L h) M r)
+                (fun h ↦ Gen.Etdrk.E4_coef_1 dt (L h) M r) (fun h ↦ Gen.Etdrk.E4_coef_2 dt (L h) M r)
+                (fun h ↦ Gen.Etdrk.E4_coef_3 dt (L h) M r) (fun h ↦ Gen.Etdrk.E4_coef_4 dt (L h) M r)
+                (fun h ↦ Gen.Etdrk.E4_coef_5 dt (L h) M r) (fun h ↦ Gen.Etdrk.E4_coef_6 dt (L h) M r) N u =
+              u :=
+  @Exponax.EquilibriaStored.stored_fixed_point_E4
+
+open Exponax.Equilibria Exponax.EquilibriaStored in
+theorem C09_fixed_point_stored_needs_defect_hypothesis :
+    ¬∀ (dt lam r : ℂ) (M : ℕ) (N : ℂ → ℂ) (u : ℂ),
+        (∀ ζ ∈ Gen.Etdrk.roots_of_unity M, r * ζ + lam * dt ≠ 0) →
+          lam * u + N u = 0 → Gen.Etdrk.E1step (Gen.Etdrk.exp_term dt lam) (Gen.Etdrk.E1_coef_1 dt lam M r) N u = u :=
+  @Exponax.EquilibriaStored.stored_fixed_point_false
+
+open Exponax.Equilibria Exponax.EquilibriaStored in
+theorem C09_fixed_point_defect_default :
+    ∀ (dt lam : ℝ),
+      lam * dt ≤ 0 → ‖fpDefect (↑dt) (↑lam) 16 1‖ ≤ |lam * dt| * 5e-8 ∧ ‖fpDefectHalf (↑dt) (↑lam) 16 1‖ ≤ |lam * dt| * 5e-8 :=
+  @Exponax.EquilibriaStored.norm_fpDefect_default
+
+open Exponax.Equilibria Exponax.EquilibriaStored in
+theorem C09_equilibrium_almost_fixed_default :
+    ∀ (dt : ℝ) (L : ℕ → ℝ) (u : ℕ → ℂ) (N : (ℕ → ℂ) → ℕ → ℂ),
+      (∀ (h : ℕ), ↑(L h) * u h + N u h = 0) →
+        (∀ (h : ℕ), L h * dt ≤ 0) →
+          ∀ (h : ℕ),
+            ‖Gen.Etdrk.E1step (fun h ↦ Gen.Etdrk.exp_term ↑dt ↑(L h)) (fun h ↦ Gen.Etdrk.E1_coef_1 (↑dt) (↑(L h)) 16 1) N u
+                    h -
+                  u h‖ ≤
+              |L h * dt| * 5e-8 * ‖u h‖ :=
+  @Exponax.EquilibriaStored.stored_E1_almost_fixed_default
+
+open Exponax.Equilibria Exponax.EquilibriaStored in
+theorem C09_stored_weights_telescope :
+    ∀ (dt lam r : ℂ) (M : ℕ),
+      Gen.Etdrk.E4_coef_4 dt lam M r + 4 * Gen.Etdrk.E4_coef_5 dt lam M r + Gen.Etdrk.E4_coef_6 dt lam M r =
+        Gen.Etdrk.E1_coef_1 dt lam M r :=
+  @Exponax.EquilibriaStored.stored_E4_sum
+
 
 end Exponax
